@@ -11,7 +11,7 @@ git -C /repo worktree remove --force $wt 2>/dev/null
 rm -rf $hd
 git -C /repo worktree add -q --detach $wt HEAD || exit 2
 trap 'git -C /repo worktree remove --force '$wt' 2>/dev/null; rm -rf '$hd EXIT
-(cd $wt && git apply /verif/seeded/$name/patch.diff) || { echo "MUTANT $name: patch does not apply"; exit 2; }
+(cd $wt && (git apply /verif/seeded/$name/patch.diff 2>/dev/null || (git apply --3way /verif/seeded/$name/patch.diff && git reset -q))) || { echo "MUTANT $name: patch does not apply"; exit 2; }
 mkdir -p $hd/root/bin $hd/root/evidence
 cp -r /verif/harness $hd/harness
 cp /verif/known_findings.jsonl $hd/root/ 2>/dev/null
